@@ -22,6 +22,7 @@ fn models(tier: Tier) -> Vec<Model> {
             v.extend(gen::m3(0).into_iter().step_by(263));
             v.extend(gen::m5(0).into_iter().step_by(97));
             v.extend(gen::m7(0).into_iter().step_by(53));
+            v.extend(gen::m8(0).into_iter().step_by(9));
         }
         Tier::Thorough => {
             v.extend(gen::m1(1).into_iter().step_by(17));
@@ -29,6 +30,7 @@ fn models(tier: Tier) -> Vec<Model> {
             v.extend(gen::m3(1).into_iter().step_by(97));
             v.extend(gen::m5(1).into_iter().step_by(23));
             v.extend(gen::m7(1).into_iter().step_by(11));
+            v.extend(gen::m8(1).into_iter().step_by(3));
         }
     }
     v
